@@ -152,10 +152,22 @@ def task(spec: dict) -> dict:
     st = Stats()
     only = spec.get("only")
 
-    def run(ch: Chooser):
-        sysm, trials = execute(spec, ch, depth, policy, setup=_late(spec), between_runs=_between(spec))
-        sysm.close()
-        return trials
+    def make_run(d):
+        def run(ch: Chooser):
+            sysm, trials = execute(spec, ch, d, policy, setup=_late(spec), between_runs=_between(spec) if d > 1 else None)
+            sysm.close()
+            return trials
+
+        return run
+
+    if only is None and depth > 2:
+        from qv.core import plan_depth
+
+        planned, e1 = plan_depth(make_run, depth)
+        if planned < depth:
+            counters["specs_with_reduced_depth"] = 1
+        depth = planned
+    run = make_run(depth)
 
     gen = explore(run, stats=st) if only is None else None
     if only is not None:
